@@ -17,7 +17,19 @@ Oracle (the statement, nothing more):
 * exactly one eomReceived per recipient and message, logged after the client finished that body;
 * the server's command log == the client's command log (no body line is ever a command).
 
-Guards: bodies have at least one line, no CR, lines shorter than the server's MAX_LENGTH; a body
+Second generation (own RNG stream): every kind of application-supplied result for validateFrom /
+validateTo / eomReceived (plain value, fired Deferred, fired later, `.called` but chained on an unfired
+Deferred, fired and paused; the harness fires outstanding ones whenever the link is quiescent), rejected
+recipients (SMTPBadRcpt raised or delivered through each Deferred kind), a failing eomReceived, a message
+refused midway by IMessage.lineReceived (documented SMTPServerError), each followed by further messages
+of the same session; lines of 996..1002 and 2048 bytes and around the server's documented line limit
+(16382..16386, 20000).  For a message the server may refuse (a wire line longer than its MAX_LENGTH, or a
+refusal raised by the IMessage) only "never more": delivered lines are a prefix of the body's lines, no
+eomReceived after a refusal, and the server's command log is a prefix of the client's — body content
+still must never be executed as a command.  `smtp-overlong-line-leaves-data-mode` is used only when that
+is the sole failure and it happens at/after the first message containing an over-long line.
+
+Guards: bodies have at least one line, no CR; a body
 without final newline counts its last unterminated piece as a line; timeouts are disabled (no
 reactor timers); response texts are not compared.
 
@@ -42,7 +54,9 @@ RULE = ("random bodies (1..40 lines, < 900 bytes) rich in '.', '..', '.x' lines 
 ASSUMPTIONS = ["trusted base: the E2 link (vf/engines/netsim.py) and the 10-line expected-message computation in this module",
                "the client and server run without timeouts; SMTP replies are whatever the real server sends"]
 SHARDS = {"quick": 4, "thorough": 16}
-FLOORS = {"messages_compared": 1000, "message_lines_compared": 5000, "eom_observed": 1000, "server_commands_logged": 4000,
+FLOORS = {"application_deferreds_fired_later": 1500, "deferred_kind_called-chained": 300, "deferred_kind_paused": 300, "deferred_kind_pending": 300,
+          "recipients_rejected": 150, "messages_refused_midway": 50, "second_message_after_failure_or_rejection": 80, "long_line_bodies": 200,
+          "line_exactly_at_server_limit": 5, "bodies_with_line_beyond_server_limit": 10, "messages_compared": 1000, "message_lines_compared": 5000, "eom_observed": 1000, "server_commands_logged": 4000,
           "dot_lines_sent": 2000, "dot_line_at_chunk_start": 200, "dot_line_not_at_chunk_start": 500, "no_final_newline": 50,
           "command_lookalike_lines": 300}
 READY = True
@@ -159,22 +173,57 @@ def predict_with_fault(body, chunk, hdr):
 
 
 # ------------------------------------------------------------------ harness objects
-def build(log, bodies, nrcpt, hdr, server_cls):
+def make_deferred(defer, later, kind, value, fail=None):
+    """The kinds of results application code hands to the server: a plain value, an already fired Deferred,
+    one fired later, one that is `.called` but whose chain waits on an unfired Deferred, one fired and paused."""
+    final = (lambda d: d.errback(fail)) if fail is not None else (lambda d: d.callback(value))
+    if kind == "plain":
+        if fail is not None:
+            raise fail
+        return value
+    d = defer.Deferred()
+    if kind == "fired":
+        final(d)
+    elif kind == "pending":
+        later.append(lambda: final(d))
+    elif kind == "called-chained":
+        inner = defer.Deferred()
+        d.addCallback(lambda _: inner)
+        d.callback(None)
+        later.append(lambda: final(inner))
+    elif kind == "paused":
+        final(d)
+        d.pause()
+        later.append(d.unpause)
+    return d
+
+
+def build(log, bodies, nrcpt, hdr, server_cls, plan=None, later=None):
     from zope.interface import implementer
     from twisted.internet import defer
     from twisted.mail import smtp
 
+    plan = plan or {}
+    later = later if later is not None else []
+    dk = plan.get("dk", {})
+    state = {"m": -1, "k": 0}
+
     @implementer(smtp.IMessage)
     class Msg:
-        def __init__(self, mid):
-            self.mid = mid
+        def __init__(self, mid, m):
+            self.mid, self.m, self.n = mid, m, 0
 
         def lineReceived(self, line):
             log.append(("msg-line", self.mid, line))
+            self.n += 1
+            if plan.get("refuse") == (self.m, self.n - 1):
+                raise smtp.SMTPServerError(552, b"message refused by the harness")
 
         def eomReceived(self):
             log.append(("eom", self.mid))
-            return defer.succeed(None)
+            fail = RuntimeError("delivery failed (harness)") if self.m in plan.get("eom_fail", ()) else None
+            kind = dk.get("eom", "fired")
+            return make_deferred(defer, later, "fired" if kind == "plain" else kind, None, fail)
 
         def connectionLost(self):
             log.append(("msg-lost", self.mid))
@@ -188,20 +237,26 @@ def build(log, bodies, nrcpt, hdr, server_cls):
             return hdr
 
         def validateFrom(self, helo, origin):
-            return origin
+            state["m"] += 1
+            state["k"] = 0
+            return make_deferred(defer, later, dk.get("from", "plain"), origin)
 
         def validateTo(self, user):
+            m, k = state["m"], state["k"]
+            state["k"] += 1
+
             def make():
                 self.n += 1
-                return Msg(self.n)
-            return make
+                return Msg(self.n, m)
+            fail = smtp.SMTPBadRcpt(user) if (m, k) in plan.get("reject", ()) else None
+            return make_deferred(defer, later, dk.get("to", "plain"), make, fail)
 
     class Client(smtp.SMTPClient):
         debug = False
 
         def __init__(self):
             smtp.SMTPClient.__init__(self, b"client.example")
-            self.queue = list(bodies)
+            self.cur = -1  # index of the message being sent (a message whose recipients were all refused is skipped)
             self.sent = []
             self._terminating = False
 
@@ -219,13 +274,14 @@ def build(log, bodies, nrcpt, hdr, server_cls):
                 self._terminating = False
 
         def getMailFrom(self):
-            return b"sender@example.org" if self.queue else None
+            self.cur += 1
+            return b"sender@example.org" if self.cur < len(bodies) else None
 
         def getMailTo(self):
             return [b"rcpt%d@example.net" % k for k in range(nrcpt)]
 
         def getMailData(self):
-            return io.BytesIO(self.queue.pop(0))
+            return io.BytesIO(bodies[self.cur])
 
         def sentMail(self, code, resp, numOk, addresses, log_):
             self.sent.append(code)
@@ -245,12 +301,17 @@ def build(log, bodies, nrcpt, hdr, server_cls):
     return Client(), srv
 
 
-def run_connection(rng, bodies, chunk, nrcpt, hdr, server_cls, seg_mode):
+def run_connection(rng, bodies, chunk, nrcpt, hdr, server_cls, seg_mode, plan=None):
     from twisted.protocols import basic
     from vf.engines.netsim import Link
 
+    from twisted.logger import globalLogPublisher
+
     log = []
-    cli, srv = build(log, bodies, nrcpt, hdr, server_cls)
+    later = []
+    cli, srv = build(log, bodies, nrcpt, hdr, server_cls, plan, later)
+    logged = []
+    globalLogPublisher.addObserver(logged.append)  # failures the server logs (no gc pass per case: too slow)
     saved = basic.FileSender.CHUNK_SIZE
     basic.FileSender.CHUNK_SIZE = chunk
     try:
@@ -268,11 +329,21 @@ def run_connection(rng, bodies, chunk, nrcpt, hdr, server_cls, seg_mode):
 
         steps = 0
         try:
-            steps = link.pump(rng, max_steps=200000, chunk=seg)
+            for _ in range(400):  # quiescent -> let the application fire one of its outstanding Deferreds
+                steps += link.pump(rng, max_steps=400000, chunk=seg)
+                if not later:
+                    break
+                log.append(("app-fires-deferred",))
+                later.pop(0)()
         except Exception as e:  # a reactor would log this and drop the connection
             log.append(("exception", "%s: %s" % (type(e).__name__, str(e)[:160])))
     finally:
         basic.FileSender.CHUNK_SIZE = saved
+        globalLogPublisher.removeObserver(logged.append)
+    for ev in logged:
+        f = ev.get("log_failure")
+        if f is not None:
+            log.append(("logged-failure", getattr(f.type, "__name__", "?"), f.getErrorMessage()[:80]))
     return log, steps, link
 
 
@@ -280,10 +351,16 @@ def run_connection(rng, bodies, chunk, nrcpt, hdr, server_cls, seg_mode):
 def check_connection(ctx, case):
     rng = ctx.case_rng(case["i"], "seg")
     bodies, chunk, nrcpt, hdr, server_cls = case["bodies"], case["chunk"], case["nrcpt"], case["hdr"], case["server"]
-    log, steps, link = run_connection(rng, bodies, chunk, nrcpt, hdr, server_cls, case["seg_mode"])
+    plan = case.get("plan") or {}
+    log, steps, link = run_connection(rng, bodies, chunk, nrcpt, hdr, server_cls, case["seg_mode"], plan)
     ctx.evaluated()
     ctx.count("pump_steps", steps)
     ctx.count("bytes_client_to_server", len(link.a.transport.written))
+    for ev in log:
+        if ev[0] == "logged-failure":  # the failing eomReceived of the plan is logged by the server; anything else is only recorded
+            ctx.count("logged_failures")
+            ctx.seen("logged_failure_types", ev[1])
+    ctx.count("application_deferreds_fired_later", sum(1 for ev in log if ev[0] == "app-fires-deferred"))
     msgs = {}
     eoms = {}
     done_at = {}
@@ -300,35 +377,56 @@ def check_connection(ctx, case):
     ctx.count("server_commands_logged", len(srv_cmds))
     problems = []
     first_bad = None
+    over = case.get("overlong")  # index of the first message with a wire line beyond the server's documented MAX_LENGTH
+    mid = 0
     for m, body in enumerate(bodies):
         lines = body_lines(body)
         exp = expected_message(lines, hdr)
+        lenient = over is not None and m >= over  # the server may refuse / drop: only "never more, never a command"
         for k in range(nrcpt):
-            mid = m * nrcpt + k + 1
+            if (m, k) in plan.get("reject", ()):
+                ctx.count("recipients_rejected")
+                continue
+            mid += 1
             got = msgs.get(mid, [])
             ctx.count("messages_compared")
             ctx.count("message_lines_compared", len(exp))
-            if got != exp:
-                problems.append(("body-mismatch", m, mid, exp, got))
+            refuse = plan.get("refuse")
+            bad = None
+            if lenient:
+                ctx.count("messages_after_overlong_line_prefix_checked")
+                if got != exp[:len(got)] or len(eoms.get(mid, [])) > 1:
+                    bad = ("body-mismatch", m, mid, exp[:len(got) + 1], got)
+            elif refuse is not None and refuse[0] == m:
+                ctx.count("messages_refused_midway")
+                if got != exp[:refuse[1] + 1]:
+                    bad = ("body-mismatch", m, mid, exp[:refuse[1] + 1], got)
+                elif eoms.get(mid):
+                    bad = ("eom-count", m, mid, 0, len(eoms[mid]))
+            else:
+                ne = eoms.get(mid, [])
+                if got != exp:
+                    bad = ("body-mismatch", m, mid, exp, got)
+                elif len(ne) != 1:
+                    bad = ("eom-count", m, mid, 1, len(ne))
+                elif m not in done_at or ne[0] < done_at[m]:
+                    bad = ("eom-before-body-end", m, mid, done_at.get(m), ne[0])
+            if bad:
+                problems.append(bad)
                 if first_bad is None:
                     first_bad = m
-            ne = eoms.get(mid, [])
-            if len(ne) != 1:
-                problems.append(("eom-count", m, mid, 1, len(ne)))
-                if first_bad is None:
-                    first_bad = m
-            elif m not in done_at or ne[0] < done_at[m]:
-                problems.append(("eom-before-body-end", m, mid, done_at.get(m), ne[0]))
-                if first_bad is None:
-                    first_bad = m
-    extra = [mid for mid in msgs if mid > len(bodies) * nrcpt]
+    nexpected = mid
+    extra = [x for x in msgs if x > nexpected]
     if extra:
         problems.append(("unexpected-message", None, extra, None, [msgs[x] for x in extra]))
     for ev in log:
         if ev[0] == "exception":
             ctx.count("exceptions_in_protocol_code")
             problems.append(("exception-in-protocol-code", None, None, None, ev[1]))
-    if srv_cmds != cli_cmds:
+    if over is not None:
+        if srv_cmds != cli_cmds[:len(srv_cmds)]:
+            problems.append(("body-line-executed-as-command", None, None, cli_cmds, srv_cmds))
+    elif srv_cmds != cli_cmds:
         problems.append(("body-line-executed-as-command" if len(srv_cmds) > len(cli_cmds) else "command-log-differs", None, None, cli_cmds, srv_cmds))
     if i_sample(ctx, case):
         ctx.sample({"chunk": chunk, "bodies": bodies, "server": server_cls, "recipients": nrcpt, "server_commands": srv_cmds,
@@ -337,15 +435,19 @@ def check_connection(ctx, case):
         return
     # classification
     key = problems[0][0]
+    if over is not None and (first_bad is None or first_bad >= over) and any(p[0] == "body-line-executed-as-command" for p in problems):
+        # the only thing wrong is what follows a line longer than MAX_LENGTH inside DATA
+        key = "smtp-overlong-line-leaves-data-mode"
     affected = [m for m, b in enumerate(bodies) if dot_lines_at_chunk_start(b, chunk)[0]]
     if affected and first_bad is not None and first_bad == affected[0]:
         m = first_bad
         pred = predict_with_fault(bodies[m], chunk, hdr)
-        if all(msgs.get(m * nrcpt + k + 1, []) == pred for k in range(nrcpt)) and pred != expected_message(body_lines(bodies[m]), hdr):
+        if not plan and all(msgs.get(m * nrcpt + k + 1, []) == pred for k in range(nrcpt)) and pred != expected_message(body_lines(bodies[m]), hdr):
             key = "smtp-dot-first-in-chunk"
     ctx.violation(key, "message delivered by the server differs from the body the client was given / body lines were executed as commands",
                   {"case": case["i"], "chunk_size": chunk, "bodies": bodies, "recipients": nrcpt, "received_header": hdr, "server": server_cls,
-                   "segmentation_mode": case["seg_mode"], "dot_lines_at_chunk_start": [dot_lines_at_chunk_start(b, chunk)[0] for b in bodies],
+                   "segmentation_mode": case["seg_mode"], "plan": {k: (sorted(v) if isinstance(v, (set, frozenset)) else v) for k, v in plan.items()},
+                   "first_message_with_overlong_line": over, "dot_lines_at_chunk_start": [dot_lines_at_chunk_start(b, chunk)[0] for b in bodies],
                    "problems": [{"kind": p[0], "message": p[1], "id": p[2], "expected": p[3], "observed": p[4]} for p in problems[:4]],
                    "client_commands": cli_cmds, "server_commands": srv_cmds[:40]})
 
@@ -366,7 +468,9 @@ def make_case(ctx, i):
             ctx.count("no_final_newline")
     case = {"i": i, "bodies": bodies, "chunk": chunk, "nrcpt": rng.choice([1, 1, 2]), "hdr": rng.choice([HDR, HDR, None]),
             "server": rng.choice(["ESMTP", "ESMTP", "ESMTP", "SMTP"]), "seg_mode": rng.randrange(4)}
-    nontrivial = False
+    extend_case(ctx, case, i)
+    bodies = case["bodies"]
+    nontrivial = bool(case.get("plan")) or case.get("overlong") is not None
     for b in bodies:
         hits, other = dot_lines_at_chunk_start(b, chunk)
         ctx.count("dot_line_at_chunk_start", len(hits))
@@ -376,10 +480,61 @@ def make_case(ctx, i):
         ctx.count("command_lookalike_lines", la)
         nontrivial = nontrivial or hits or other or la
     if nontrivial:
-        ctx.distinct((tuple(bodies), chunk, case["nrcpt"], case["hdr"], case["server"]))
+        ctx.distinct((tuple(bodies), chunk, case["nrcpt"], case["hdr"], case["server"], repr(sorted((case.get("plan") or {}).items(), key=str))))
     ctx.seen("chunk_sizes", str(chunk))
     ctx.seen("servers", case["server"])
     return case
+
+
+KINDS = ["plain", "fired", "pending", "called-chained", "paused"]
+MAXLEN = 16384  # LineOnlyReceiver.MAX_LENGTH of the server (documented limit)
+
+
+def extend_case(ctx, case, i):
+    """Second generation of the workload (own RNG stream, so the first one is unchanged): long lines around the
+    RFC (998/1000) and server (16384) limits, application Deferreds of every kind, rejected recipients, a failing
+    eomReceived, a message refused midway by IMessage.lineReceived — followed by further messages."""
+    rng = ctx.case_rng(i, "plan")
+    bodies, nmsg, nrcpt = case["bodies"], len(case["bodies"]), case["nrcpt"]
+    r = rng.random()
+    if r < 0.12:  # long lines
+        m = rng.randrange(nmsg)
+        if rng.random() < 0.7 or case["chunk"] < 64:
+            n = rng.choice([996, 997, 998, 999, 1000, 1001, 1002, 2048])
+        else:
+            n = rng.choice([MAXLEN - 2, MAXLEN - 1, MAXLEN, MAXLEN, MAXLEN + 1, MAXLEN + 1, MAXLEN + 2, 20000])
+        lead = rng.choice([b"", b"", b"."])
+        line = lead + bytes(rng.choice(b"abcdefgh ") for _ in range(n - len(lead)))
+        ls = body_lines(bodies[m])
+        ls.insert(rng.randrange(len(ls) + 1), line)
+        if n > 2048:
+            case["seg_mode"] = rng.choice([0, 3, 3])  # keep 16-20 KiB bodies affordable
+            ls += [b"RSET", b"MAIL FROM:<after-long-line@example.org>", b"QUIT"][:rng.randrange(1, 4)]
+        bodies[m] = b"\n".join(ls) + b"\n"
+        ctx.count("long_line_bodies")
+        ctx.seen("long_line_lengths", str(n))
+        if any(len(x) + (x[:1] == b".") > MAXLEN for x in ls):
+            case["overlong"] = m
+            ctx.count("bodies_with_line_beyond_server_limit")
+        if len(ls[ls.index(line)]) + (lead == b".") == MAXLEN:
+            ctx.count("line_exactly_at_server_limit")
+    if rng.random() < 0.5:
+        plan = {"dk": {"from": rng.choice(KINDS), "to": rng.choice(KINDS), "eom": rng.choice(KINDS[1:])}}
+        q = rng.random()
+        if q < 0.25:
+            plan["reject"] = frozenset((m, k) for m in range(nmsg) for k in range(nrcpt) if rng.random() < 0.4)
+        elif q < 0.4:
+            plan["eom_fail"] = frozenset(m for m in range(nmsg) if rng.random() < 0.6)
+        elif q < 0.55 and nrcpt == 1 and case.get("overlong") is None:
+            m = rng.randrange(nmsg)
+            n = len(expected_message(body_lines(bodies[m]), case["hdr"]))
+            plan["refuse"] = (m, rng.randrange(n))
+        case["plan"] = plan
+        for which, kind in plan["dk"].items():
+            ctx.count("deferred_kind_%s" % kind)
+        ctx.seen("plans", "+".join(sorted(k for k in plan if k != "dk")) or "deferred-kinds-only")
+        if nmsg > 1 and len(plan) > 1:
+            ctx.count("second_message_after_failure_or_rejection")
 
 
 def run(ctx):
